@@ -69,5 +69,10 @@ CHECKS += [
          text="For every full-rank configuration (rank decided exactly in rational arithmetic) WCCN and whitening are fitted; the projection must be lower-triangular with positive diagonal and equal the unique Cholesky factor computed from the exact scatter/covariance of the partition alone (so any dependence on label values or order shows), the transformed training data must have zero mean / identity covariance resp. within-class scatter / K = identity, for numpy, list and every enumerated Dask layout, with and without pinv.",
          note=TRUST),
 ]
+CHECKS += [
+    dict(id="C16", engine="bfs", technique="exhaustive enumeration of operation histories (all sequences up to the depth, state = history + global RNG state) and of all sample orders / class renamings, on the real code",
+         text="Every sequence of up to 2 (thorough 3) history operations (re-seeding or drawing from NumPy's global generator, training any other estimator) is executed before each fit under test and the result must be bit-identical to the fit on the empty history; all n! sample orders and all K! class renamings must give the same model up to rounding for k-means/GMM (explicit start), ISV, JFA (list, bag, Dask array), WCCN and whitening.",
+         note=TRUST),
+]
 _PENDING = "check not built yet in this round (planned, see DESIGN.md section 10); not claimed until it runs clean"
 NOT_APPLICABLE = [dict(property_id="C%02d" % i, reason=_PENDING) for i in range(1, 21) if "C%02d" % i not in {c["id"] for c in CHECKS}]
